@@ -66,4 +66,8 @@ def text_checks(case, t4):
             for kind_, sid in t4.bcs:
                 if sid not in t4.surfs:
                     out.append('boundary condition designates surface %d which is not in the geometry' % sid)
+        if chk['what'] == 'provenance_records':
+            from . import deck as dk
+            from . import deckref
+            out += deckref.record_problems(dk.from_json(case['deck_model']), t4)
     return out
